@@ -56,6 +56,26 @@ def gen(chk, tier):
                     a2 = [list(x) for x in args]
                     a2[ai] = (a2[ai] + rb(rng, 64))[:L] if L > 32 else a2[ai][32 - L:]
                     verify("length_" + name, *a2)
+    # TWO arguments with wrong lengths that compensate each other (31 + 33, 30 + 34, 0 + 64, X||Y in one argument):
+    # a length test on the total, or on a concatenation, accepts these
+    d = rscalar(rng)
+    s_, t_ = rscalar(rng), rscalar(rng)
+    pt, e, r, R = forged(d, s_, t_)
+    args = [b32(pt[0]), b32(pt[1]), b32(e), b32(r), b32(s_)]
+    names = ("px", "py", "e", "r", "s")
+    for i in range(5):
+        for j in range(5):
+            if i == j:
+                continue
+            for cut in ((1, 2, 32) if not q or (i + j) % 2 else (1, 32)):
+                a2 = [list(x) for x in args]
+                if cut == 32:                       # argument i carries both values, argument j is empty
+                    a2[i] = a2[i] + a2[j]
+                    a2[j] = []
+                else:                               # i loses its first bytes (leading zeros stripped or not), j gains zeros in front
+                    a2[i] = a2[i][cut:]
+                    a2[j] = [0] * cut + a2[j]
+                verify("length_pair_%s_%s" % (names[i], names[j]), *a2)
     # forged triples satisfying the equation while violating exactly one side condition
     for _ in range(3 if q else 40):
         d = rscalar(rng)
